@@ -3,6 +3,7 @@ Node-level simulation: every versioned table of the node refines its plain per-k
 -/
 import Brc20.Model.Node
 import Brc20.Proofs.Table
+import Brc20.Proofs.BlockDb
 set_option linter.unusedSectionVars false
 
 namespace Brc20
@@ -18,4 +19,137 @@ structure HeightInv (n : Node) : Prop where
   latest_is_last : ∀ h x, n.latest = some (h, x) → (n.b .numberToHash).lastKey = some h
   nodup : ∀ i, AMap.Nodup (n.b i).db ∧ AMap.Nodup (n.b i).cache
 
+namespace Node
+
+theorem mem_allTIds (i : TId) : i ∈ allTIds := by cases i <;> decide
+
+theorem nodup_allTIds : allTIds.Nodup := by decide
+
+/-- `reorgTables` only replaces versioned tables. -/
+theorem reorgTables_frame (target : Nat) (l : List TId) (n n1 : Node) (h : reorgTables n target l = some n1) :
+    n1.b = n.b ∧ n1.latest = n.latest ∧ n1.lbi = n.lbi ∧ n1.maxBlock = n.maxBlock := by
+  induction l generalizing n with
+  | nil => simp only [reorgTables, Option.some.injEq] at h; subst h; exact ⟨rfl, rfl, rfl, rfl⟩
+  | cons i rest ih =>
+    simp only [reorgTables] at h
+    cases hr : (n.t i).reorg W target with
+    | none => rw [hr] at h; cases h
+    | some t' =>
+      rw [hr] at h
+      exact ih (n.setT i t') h
+
+/-- Over a duplicate-free list of table ids, `reorgTables` replaces each listed table by its own `Table.reorg`
+(the tables are independent: `setT` on `i` does not touch `j ≠ i`). -/
+theorem reorgTables_spec (target : Nat) (f : TId → Table String String) (l : List TId) (nd : l.Nodup) (n : Node)
+    (hf : ∀ i ∈ l, (n.t i).reorg W target = some (f i)) :
+    ∃ n1, reorgTables n target l = some n1 ∧ ∀ j, n1.t j = if j ∈ l then f j else n.t j := by
+  induction l generalizing n with
+  | nil => exact ⟨n, rfl, fun j => by simp⟩
+  | cons i rest ih =>
+    rw [List.nodup_cons] at nd
+    have hi := hf i List.mem_cons_self
+    have hrest : ∀ j ∈ rest, ((n.setT i (f i)).t j).reorg W target = some (f j) := by
+      intro j hj
+      have hne : j ≠ i := fun e => nd.1 (e ▸ hj)
+      simp only [setT, hne, if_false]
+      exact hf j (List.mem_cons_of_mem _ hj)
+    obtain ⟨n1, e1, e2⟩ := ih nd.2 (n.setT i (f i)) hrest
+    refine ⟨n1, ?_, ?_⟩
+    · simp only [reorgTables, hi]; exact e1
+    · intro j
+      rw [e2 j]
+      by_cases hj : j ∈ rest
+      · simp [hj]
+      · by_cases hji : j = i
+        · subst hji; simp [hj, setT]
+        · simp [hj, hji, setT]
+
+/-- `reorgTables` over all twelve tables, when each table's own `reorg` succeeds. -/
+theorem reorgTables_all (target : Nat) (n : Node) (f : TId → Table String String)
+    (hf : ∀ i, (n.t i).reorg W target = some (f i)) :
+    ∃ n1, reorgTables n target allTIds = some n1 ∧ (∀ j, n1.t j = f j) ∧
+      n1.b = n.b ∧ n1.latest = n.latest ∧ n1.lbi = n.lbi ∧ n1.maxBlock = n.maxBlock := by
+  obtain ⟨n1, e1, e2⟩ := reorgTables_spec target f allTIds nodup_allTIds n (fun i _ => hf i)
+  refine ⟨n1, e1, ?_, reorgTables_frame target allTIds n n1 e1⟩
+  intro j
+  rw [e2 j]; simp [mem_allTIds]
+
+/-- the refusal condition of `reorg` -/
+def Refused (n : Node) (target : Nat) : Prop :=
+  n.lbi.waiting ≠ 0 ∨ target > n.latestHeight ∨ n.latestHeight - target > W ∨ n.maxBlock.getD 0 > W + target
+
+/-- what an accepted `reorg` computes -/
+def reorgBody (n : Node) (target : Nat) : Node × Class :=
+  match reorgTables n target allTIds with
+  | none => (n, .panic)
+  | some n1 => (({ n1 with b := fun i => (n1.b i).reorg target } : Node).commitAll, .ok)
+
+theorem reorg_of_not_refused (n : Node) (target : Nat) (h : ¬ Refused n target) :
+    n.reorg target = reorgBody n target := by
+  simp only [Refused, not_or] at h
+  obtain ⟨h1, h2, h3, h4⟩ := h
+  unfold Node.reorg reorgBody
+  simp only [h1, h2, h3, h4, if_false]
+  cases reorgTables n target allTIds <;> rfl
+
+theorem reorg_refused (n : Node) (target : Nat) (h : Refused n target) : ∃ e, (n.reorg target).2 = .err e := by
+  unfold Node.reorg
+  by_cases h1 : n.lbi.waiting ≠ 0
+  · exact ⟨_, by rw [if_pos h1]⟩
+  · rw [if_neg h1]
+    simp only []
+    by_cases h2 : target > n.latestHeight
+    · exact ⟨_, by rw [if_pos h2]⟩
+    · rw [if_neg h2]
+      by_cases h3 : n.latestHeight - target > W
+      · exact ⟨_, by rw [if_pos h3]⟩
+      · rw [if_neg h3]
+        by_cases h4 : n.maxBlock.getD 0 > W + target
+        · exact ⟨_, by rw [if_pos h4]⟩
+        · exact absurd h (by simp only [Refused, not_or]; exact ⟨h1, h2, h3, h4⟩)
+
+theorem reorgBody_not_err (n : Node) (target : Nat) (e : String) : (reorgBody n target).2 ≠ .err e := by
+  unfold reorgBody
+  cases reorgTables n target allTIds <;> simp
+
+/-- an `ok` answer means: not refused, and the table phase did not panic -/
+theorem reorg_ok (n : Node) (target : Nat) (hok : (n.reorg target).2 = .ok) :
+    ¬ Refused n target ∧ ∃ n1, reorgTables n target allTIds = some n1 ∧
+      n.reorg target = (({ n1 with b := fun i => (n1.b i).reorg target } : Node).commitAll, .ok) := by
+  have hnr : ¬ Refused n target := by
+    intro hr
+    obtain ⟨e, he⟩ := reorg_refused n target hr
+    rw [he] at hok; cases hok
+  refine ⟨hnr, ?_⟩
+  rw [reorg_of_not_refused n target hnr] at hok ⊢
+  unfold reorgBody at hok ⊢
+  cases hr : reorgTables n target allTIds with
+  | none => rw [hr] at hok; cases hok
+  | some n1 => exact ⟨n1, rfl, rfl⟩
+
+/-- With every table in simulation and the target inside every table's window, the table phase of `reorg`
+succeeds and leaves every table in simulation with its log truncated at the target. -/
+theorem reorgTables_sim (n : Node) (g : TId → TSpec String String) (hs : NodeSim n g) (target : Nat)
+    (hwin : ∀ i, (g i).maxEver ≤ target + W ∧ target ≤ (g i).maxEver) :
+    ∃ n1, reorgTables n target allTIds = some n1 ∧
+      (∀ i, (n.t i).reorg W target = some (n1.t i)) ∧
+      (∀ i, Table.Sim W (n1.t i) ((g i).step (.reorg target))) ∧
+      n1.b = n.b ∧ n1.latest = n.latest ∧ n1.lbi = n.lbi ∧ n1.maxBlock = n.maxBlock := by
+  have hstep : ∀ i, ∃ t', (n.t i).reorg W target = some t' ∧ Table.Sim W t' ((g i).step (.reorg target)) :=
+    fun i => Table.step_sim (hs.sim i) (.reorg target) (hwin i)
+  let f : TId → Table String String := fun i => ((n.t i).reorg W target).getD (n.t i)
+  have hf : ∀ i, (n.t i).reorg W target = some (f i) := by
+    intro i
+    obtain ⟨t', e, _⟩ := hstep i
+    simp [f, e]
+  obtain ⟨n1, e1, e2, e3⟩ := reorgTables_all target n f hf
+  refine ⟨n1, e1, ?_, ?_, e3⟩
+  · intro i; rw [e2 i]; exact hf i
+  · intro i
+    obtain ⟨t', e, s'⟩ := hstep i
+    rw [e2 i]
+    have : f i = t' := by simp [f, e]
+    rw [this]; exact s'
+
+end Node
 end Brc20
